@@ -206,6 +206,34 @@ func genC16(r *h.Rand, tier string) []h.Case {
 			nret += 2
 			tags = append(tags, "two-extensions")
 		}
+		if r.Chance(20) {
+			// a file asked for by its full name (and remembered), then edited, then asked for by its base name
+			// for the first time: that is a lookup of its own, it reads the file as it is now
+			hasEmpty, e := false, ""
+			for _, x := range exts {
+				if x == "" {
+					hasEmpty = true
+				} else if e == "" {
+					e = x
+				}
+			}
+			if hasEmpty && e != "" {
+				b := r.Pick(bases)
+				for _, x := range exts {
+					if x != e {
+						cmd.Add(sx.L(sx.A("delfile"), sx.S(b+x)))
+					}
+				}
+				mark += 2
+				cmd.Add(sx.L(sx.A("file"), sx.S(b+e), sx.A("ok"), sx.I(int64(mark-1)), sx.L(), sx.L(), sx.Bool(false)))
+				cmd.Add(sx.L(sx.A("get"), sx.S(b+e)))
+				cmd.Add(sx.L(sx.A("file"), sx.S(b+e), sx.A("ok"), sx.I(int64(mark)), sx.L(), sx.L(), sx.Bool(false)))
+				cmd.Add(sx.L(sx.A("get"), sx.S(b)))
+				nret += 2
+				cmd.Add(sx.L(sx.A("exec"), sx.I(int64(nret-1))))
+				tags = append(tags, "alias-after-edit")
+			}
+		}
 		for k := 0; k < nops; k++ {
 			switch r.Intn(10) {
 			case 0, 1, 2, 3:
@@ -375,6 +403,17 @@ func init() {
 					}
 					if t.Name != want && fail == "" {
 						fail = "GetTemplate(" + strconv.Quote(name) + "), a name not asked for before, returned the template of " + t.Name + "; the first existing candidate in extension order is " + want
+					}
+					// ... and it is read from the loader now: what is remembered under another name (the same file
+					// asked for with its extension, say) is not an answer to this one - it may be older than the file
+					openedNow := false
+					for _, e := range raw {
+						if e == "O:"+want {
+							openedNow = true
+						}
+					}
+					if !openedNow && fail == "" {
+						fail = "GetTemplate(" + strconv.Quote(name) + "), a name not asked for before, was answered without opening " + want + " (trace " + strings.Join(raw, " ") + ")"
 					}
 				}
 				if op.Xs[0].A == "get" && !dev && lastGet == name {
